@@ -189,6 +189,15 @@ func Trees(big bool, maxChain int) []Tree {
 		add("list<string>[small,4097,small]", ref.Value{T: ref.LIST, Elem: ref.STRING, L: []ref.Value{Small(ref.STRING, 0), b1, Small(ref.STRING, 1)}})
 		add("struct{1:9000,2:i32}", ref.Value{T: ref.STRUCT, F: []ref.Field{{ID: 1, V: b2}, {ID: 2, V: Small(ref.I32, 0)}}})
 		add("map<string,string>{4097:9000}", ref.Value{T: ref.MAP, Key: ref.STRING, Elem: ref.STRING, L: []ref.Value{b1, b2}})
+		// declared sizes with bit 15 set (0x8001, 0xC350) and above 0x18000
+		add("string/0x8001", ref.Value{T: ref.STRING, S: bigString(0x8001)})
+		add("string/0x18001", ref.Value{T: ref.STRING, S: bigString(0x18001)})
+		lb := ref.Value{T: ref.LIST, Elem: ref.BYTE}
+		for i := 0; i < 0xC350; i++ {
+			lb.L = append(lb.L, ref.Value{T: ref.BYTE, I: uint64(i & 0x7f)})
+		}
+		add("list<byte>x50000", lb)
+		add("struct{1:string/0x8001}", ref.Value{T: ref.STRUCT, F: []ref.Field{{ID: 1, V: ref.Value{T: ref.STRING, S: bigString(0x8001)}}}})
 		// fast-path containers larger than the reader's buffer
 		l := ref.Value{T: ref.LIST, Elem: ref.I64}
 		for i := 0; i < 1200; i++ {
